@@ -215,7 +215,7 @@ func (val Value) Equals(other Value) Value {
 	if !val.HasWhollyKnownType() || !other.HasWhollyKnownType() {
 		// Even if we have dynamic values, we can still determine inequality if
 		// there is no way the types could later conform.
-		if val.ty.TestConformance(other.ty) != nil && other.ty.TestConformance(val.ty) != nil {
+		if !typesCouldBeEqual(val.ty, other.ty) {
 			return BoolVal(false)
 		}
 
